@@ -36,13 +36,31 @@ package car
 //@   ensures eof_clean [C02]: err == io.EOF ==> result0 == 0
 
 //@ func (*Characteristics).SetFullyIndexed
-//@   trusted
 //@   modifies c.Hi
 //@   ensures flag [C05]: fullyidx(c.Hi) == ite(b, 1, 0)
+//@   ensures keeps_other_bits [C05]: forall(k, 0, 64, (k != 7 ==> bitof(c.Hi, k) == bitof(old(c.Hi), k)))
 
 //@ func (*Characteristics).IsFullyIndexed
-//@   trusted
 //@   ensures flag [C05]: result == (fullyidx(c.Hi) == 1)
+
+// The three bit helpers are verified in bit-vector mode (gcv/bv.go): there bitof(x, k) is (x >> k) & 1.
+
+//@ func setBit
+//@   bitvector
+//@   requires in_word [C05]: pos < 64
+//@   ensures sets_that_bit [C05]: bitof(result, pos) == 1
+//@   ensures keeps_the_others [C05]: forall(k, 0, 64, (k != pos ==> bitof(result, k) == bitof(n, k)))
+
+//@ func unsetBit
+//@   bitvector
+//@   requires in_word [C05]: pos < 64
+//@   ensures clears_that_bit [C05]: bitof(result, pos) == 0
+//@   ensures keeps_the_others [C05]: forall(k, 0, 64, (k != pos ==> bitof(result, k) == bitof(n, k)))
+
+//@ func isBitSet
+//@   bitvector
+//@   requires in_word [C05]: pos < 64
+//@   ensures def [C05]: result == (bitof(n, pos) == 1)
 
 //@ func (Header).WriteTo
 //@   effect
